@@ -27,13 +27,23 @@ single-shot fitters, and against iter_linear_fit(nclip=0, center=c) for the cent
 op `clip8` (the comparison `norm < nsigma*stat`) against numpy.
 
 Tolerance: 1e-9 relative to the data scale (coordinates), 1e-9 relative for matrices.
+
+Collinearity guard of fit_general (repaired finding F13): `SingularMatrixError` on one side only (model vs
+implementation, or the two members of a metamorphic pair) is a near-tie only when the quantity the guard
+tests, (cuu*cvv - cuv^2)/((cuu+cvv)/2)^2, computed exactly from the data (`common.guard_ratio`), lies in the
+band [2^-52/64, 2^-52*64] (for the model run in doubles: at or below 2^-52 max(64, 4(n+4)), its own rounding
+error); otherwise it is a disagreement / oracle failure.  The corpus contains thin but legitimate sets
+(aspect ratio 1e-6 .. 1e-3, both orientations and rotated by 30 degrees) that must be fitted by both sides, and
+exactly collinear / coincident integer sets (with weights, through iter_linear_fit with and without clipping)
+that both sides must refuse, in the original and in every transformed frame.
 """
 import logging
 import math
 
 import numpy as np
 
-from ..common import Fraction, q2s, f2x, x2f, s2q, to_fraction
+from ..common import (Fraction, q2s, f2x, x2f, s2q, to_fraction, guard_ratio, guard_expect, harmonic_weights,
+                      guard_mismatch_is_tie)
 
 logging.disable(logging.CRITICAL)
 
@@ -156,6 +166,30 @@ def wmask_of(d, n):
     if d['wuv'] is not None:
         m &= np.array(d['wuv'], dtype=float) > 0
     return m
+
+
+def guard_quantity(d, mask=None):
+    """the quantity tested by the collinearity guard of fit_general on the rows of `mask` (all rows when
+    None), exactly; None when it cannot be evaluated (no positive total weight)"""
+    n = len(d['uv'])
+    w = harmonic_weights(n, d['wxy'], d['wuv'])
+    idx = [i for i in range(n) if mask is None or bool(mask[i])]
+    if len(idx) < 3 or any(w[i] < 0 for i in idx):
+        return None
+    return guard_ratio([d['uv'][i] for i in idx], [w[i] for i in idx])
+
+
+def pair_singular_is_tie(d, d2, ok_fit):
+    """one member of a metamorphic pair raised SingularMatrixError, the other returned `ok_fit` (or None): a
+    near-tie decided by rounding only if the guard quantity -- on all positively weighted rows, and on the
+    rows retained by the member that returned -- lies in the band around 2^-52 in one of the two frames"""
+    qs = []
+    for dd in (d, d2):
+        n = len(dd['uv'])
+        qs.append(guard_quantity(dd, wmask_of(dd, n)))
+        if ok_fit is not None and 'fitmask' in ok_fit and len(ok_fit['fitmask']) == n:
+            qs.append(guard_quantity(dd, np.array(ok_fit['fitmask'], dtype=bool)))
+    return any(q is None or guard_expect(q) == 'tie' for q in qs)
 
 
 def branch_margin(d, mask):
@@ -561,6 +595,22 @@ def queue_model(ctx, lines, pending, case, d, geom, impl, via_center=None):
     pending.append((case, d, geom, mode, impl))
 
 
+def _gq(d, geom):
+    if geom != 'general':
+        return None
+    q = guard_quantity(d)
+    return None if q is None else float(q)
+
+
+def singular_tie(d, geom, mode):
+    """`singular` on one side only (model / implementation): a near-tie?  fit_general: by the exact guard
+    quantity of the data (band around 2^-52, `common.guard_mismatch_is_tie`); fit_rscale / fit_rshift (coincident
+    points, su2v2 > 0, run on doubles only): as before"""
+    if geom != 'general':
+        return True
+    return guard_mismatch_is_tie(guard_quantity(d), mode, len(d['uv']))
+
+
 def compare_model(ctx, outs, pending):
     for out, (case, d, geom, mode, impl) in zip(outs, pending):
         toks = out.split()
@@ -571,24 +621,27 @@ def compare_model(ctx, outs, pending):
         if toks[0] == 'err':
             ctx.branch('model:err:' + toks[1])
             if st == 'ok':
-                if toks[1] == 'singular':
-                    # exactly (Q) or numerically (F) singular normal matrix and the code returned
-                    # parameters: recorded finding F13 (property C17), outside the scope of C08
-                    ctx.branch('degenerate:model-singular-impl-returned(F13)')
+                if toks[1] == 'singular' and singular_tie(d, geom, mode):
+                    # the collinearity guard of fit_general decided by rounding
+                    ctx.branch('guard-mismatch-in-band:' + mode)
                     ctx.near_tie()
                 else:
-                    ctx.disagree(case, {'op': 'fit8', 'mode': mode, 'model': out, 'impl': 'returned a fit'})
+                    ctx.disagree(case, {'op': 'fit8', 'mode': mode, 'model': out, 'impl': 'returned a fit',
+                                        'guard_quantity': _gq(d, geom)})
             elif ERRMAP.get(toks[1]) != err:
-                if not (toks[1] == 'singular' or err == 'SingularMatrixError'):
-                    ctx.disagree(case, {'op': 'fit8', 'mode': mode, 'model': out, 'impl': err})
-                else:
+                if (toks[1] == 'singular' or err == 'SingularMatrixError') and singular_tie(d, geom, mode):
                     ctx.near_tie()
+                else:
+                    ctx.disagree(case, {'op': 'fit8', 'mode': mode, 'model': out, 'impl': err,
+                                        'guard_quantity': _gq(d, geom)})
             continue
         if st != 'ok':
-            if err == 'SingularMatrixError':
-                ctx.near_tie()       # decided by rounding against a threshold (finding F13 territory)
+            if err == 'SingularMatrixError' and singular_tie(d, geom, mode):
+                ctx.branch('guard-mismatch-in-band:' + mode)
+                ctx.near_tie()       # decided by rounding against the threshold of the guard
             else:
-                ctx.disagree(case, {'op': 'fit8', 'mode': mode, 'model': 'returned a fit', 'impl': err})
+                ctx.disagree(case, {'op': 'fit8', 'mode': mode, 'model': 'returned a fit', 'impl': err,
+                                    'guard_quantity': _gq(d, geom)})
             continue
         vals = [float(s2q(t)) if mode == 'Q' else x2f(t) for t in toks[1:7]]
         got = {'F': np.array([[vals[0], vals[1]], [vals[2], vals[3]]]), 's': np.array(vals[4:6]),
@@ -654,11 +707,51 @@ def _count(ctx, case, nontrivial, branch, impl=True):
     ctx.case(light, nontrivial=nontrivial, branch=branch, impl=impl)
 
 
+def check_must(ctx, prob, rels, lines, pending):
+    """corpus problems with a prescribed outcome of fit_general in EVERY frame and labelling:
+    must = 'singular' (exactly collinear / coincident points: SingularMatrixError from fit_general and from
+    iter_linear_fit without and with clipping, `err singular` from the model) or must = 'fit' (thin but
+    legitimate sets: a fit from all of them)"""
+    d, par, must = prob['data'], prob['par'], prob['must']
+    geom = par['geom']
+    n = len(d['xy'])
+    ds = dict(d, center=None)
+    members = [(None, ds)] + [(rel, apply_rel(ds, rel)) for rel, _ in rels if rel['kind'] != 'center']
+    for rel, dd in members:
+        case = {'target': 'must-' + must, 'par': {'geom': geom}, 'data': dd,
+                'rel': None if rel is None else {k: v for k, v in rel.items()}}
+        _count(ctx, case, True, 'must:%s:%s' % (must, 'base' if rel is None else rel['kind'] + ':' + rel.get('label', '')))
+        q = guard_quantity(dd)
+        want = guard_expect(q)
+        if want != must:
+            # the transformed frame moved the data across the band (cannot happen for exact / thin corpus data)
+            ctx.near_tie()
+            continue
+        s1 = run_single(dd, geom)
+        outcomes = [('fit_general', s1)]
+        for nclip, cen in ((0, None), (3, None), (3, [16.0, -4.0])):
+            outcomes.append(('iter_linear_fit(nclip=%d, center=%s)' % (nclip, cen),
+                             run_iter(dict(dd, center=cen), dict(par, nclip=nclip))))
+        for name, r in outcomes:
+            if must == 'singular' and not (r[0] == 'err' and r[1] == 'SingularMatrixError'):
+                ctx.oracle_fail(case, {'what': '%s on exactly collinear / coincident points did not raise '
+                                               'SingularMatrixError' % name, 'got': r[1] or 'returned a fit',
+                                       'guard_quantity': None if q is None else float(q)})
+            if must == 'fit' and r[0] != 'ok':
+                ctx.oracle_fail(case, {'what': '%s refused a thin but legitimate point set' % name, 'got': r[1],
+                                       'guard_quantity': None if q is None else float(q)})
+        if not ctx.search_only:
+            queue_model(ctx, lines, pending, case, dd, geom,
+                        (s1[0], s1[1], observe(s1[2], n) if s1[0] == 'ok' else None))
+
+
 def check_problem(ctx, prob, rels, lines, pending):
     d, par = prob['data'], prob['par']
     _LD.clear()
     geom = par['geom']
     n = len(d['xy'])
+    if prob.get('must'):
+        check_must(ctx, prob, rels, lines, pending)
     # ---- iter_linear_fit ------------------------------------------------
     st, err, fit = run_iter(d, par)
     guard = history_guard(d, par) if st == 'ok' else None
@@ -701,7 +794,8 @@ def check_problem(ctx, prob, rels, lines, pending):
         if base[0] != 'ok' or st2 != 'ok':
             ctx.branch('iter:raised')
             if base[0] != st2 or (base[1] != err2):
-                if 'SingularMatrixError' in (base[1], err2):
+                okf = fit2 if st2 == 'ok' else (fit if (base[0] == 'ok' and par2 is par) else None)
+                if 'SingularMatrixError' in (base[1], err2) and (geom != 'general' or pair_singular_is_tie(d, d2, okf)):
                     ctx.near_tie()
                 else:
                     ctx.oracle_fail(case, {'what': 'one member of the pair raised, the other did not (or another '
@@ -757,7 +851,7 @@ def check_problem(ctx, prob, rels, lines, pending):
         s2 = run_single(d2, geom)
         if s1[0] != 'ok' or s2[0] != 'ok':
             if s1[0] != s2[0] or s1[1] != s2[1]:
-                if 'SingularMatrixError' in (s1[1], s2[1]):
+                if 'SingularMatrixError' in (s1[1], s2[1]) and (geom != 'general' or pair_singular_is_tie(ds, d2, None)):
                     ctx.near_tie()
                 else:
                     ctx.oracle_fail(case, {'what': 'one member of the pair raised, the other did not',
@@ -823,6 +917,7 @@ def corpus():
                 out.append(({'data': {'xy': xy, 'uv': uv, 'wxy': w1, 'wuv': w2, 'center': [2.0, 2.0]},
                              'par': {'geom': geom, 'nclip': 3, 'sigma': (2.0, stat), 'clip_accum': accum},
                              'family': 'corpus', 'S': 4.0}, rel2))
+    out += guard_corpus()
     # minimum number of points (nclip is reset), two-point sets on a lattice (reflection branch exactly 0)
     for geom in GEOMS:
         k = MINOBJ[geom]
@@ -842,6 +937,80 @@ def corpus():
                      'par': {'geom': geom, 'nclip': 0, 'sigma': 3.0, 'clip_accum': False},
                      'family': 'corpus', 'S': 4.0},
                     [({'kind': 'sim', 'A': QA, 'B': QA, 'label': 'both'}, None)]))
+    return out
+
+
+THIN_BASE = [(-1.0, 0.3), (-0.6, -0.8), (-0.2, 1.0), (0.1, -0.4), (0.5, 0.7), (0.9, -1.0), (1.0, 0.2)]
+THIN_NOISE = [(0.31, -0.12), (-0.77, 0.45), (0.08, 0.93), (-0.52, -0.64), (0.99, 0.17), (-0.23, 0.71), (0.66, -0.88)]
+
+
+def guard_corpus():
+    """problems for the collinearity guard of fit_general: thin but legitimate sets (must be fitted in every
+    frame) and exactly collinear / coincident integer sets (must be refused in every frame)"""
+    out = []
+    Q30 = mk_sim(1.0, 30.0, False, [5.0, -7.0])
+    Q90 = mk_sim(2.0, 90.0, True, [5.0, -7.0])
+    Qh = mk_sim(0.5, 180.0, False, [-16.0, 8.0])
+    L = 100.0
+    c30, s30 = math.cos(math.radians(30)), math.sin(math.radians(30))
+    F = np.array([[1.01, 0.02], [-0.015, 0.99]])
+    w1 = [1.0, 2.0, 1.0, 0.5, 3.0, 1.0, 2.0]
+    w2 = [2.0, 1.0, 4.0, 1.0, 1.0, 0.25, 1.0]
+    for a in (1e-6, 1e-5, 1e-4, 1e-3):
+        for orient in ('u', 'v', 'r30'):
+            if orient == 'u':
+                uv = [[L * t, L * a * q] for t, q in THIN_BASE]
+            elif orient == 'v':
+                uv = [[L * a * q, L * t] for t, q in THIN_BASE]
+            else:
+                uv = [[L * (c30 * t - s30 * a * q) + 17.0, L * (s30 * t + c30 * a * q) - 5.0] for t, q in THIN_BASE]
+            xy = (np.array(uv).dot(F.T) + np.array([3.5, -2.25]) + 1e-3 * np.array(THIN_NOISE)).tolist()
+            for wxy, wuv in ((None, None), (w1, w2)):
+                rels = [({'kind': 'perm', 'perm': [6, 2, 4, 0, 5, 1, 3]}, None),
+                        ({'kind': 'sim', 'A': Q30, 'B': Q30, 'label': 'both'}, None),
+                        ({'kind': 'sim', 'A': Q90, 'B': Q90, 'label': 'both'}, None),
+                        ({'kind': 'sim', 'A': IDENT, 'B': mk_sim(1.0, 0.0, False, [-512.0, 64.0]),
+                          'label': 'translate-uv'}, None),
+                        ({'kind': 'center', 'c': [40.0, -20.0]}, None)]
+                rels.append(({'kind': 'wscale', 'c': 4.0}, None) if wxy is not None else
+                            ({'kind': 'uniform', 'cx': 2.0, 'cu': 0.5}, None))
+                out.append(({'data': {'xy': xy, 'uv': uv, 'wxy': wxy, 'wuv': wuv, 'center': None},
+                             'par': {'geom': 'general', 'nclip': 0, 'sigma': (3.0, 'rmse'), 'clip_accum': False},
+                             'family': 'corpus-thin', 'S': L, 'must': 'fit'}, rels))
+    line = [[4.0, 1.0], [7.0, 3.0], [10.0, 5.0], [-2.0, -3.0], [1.0, -1.0], [13.0, 7.0]]          # 2u - 3v = 5
+    sets = [[[2.0, 3.0], [-1.0, 0.0], [-9.0, -8.0]],                                              # the F13 witness
+            line,
+            [[5.0, float(t)] for t in (-3, 0, 1, 4, 9)],
+            [[float(t), -3.0] for t in (-3, 0, 1, 4, 9)],
+            [[1000000.0 + 3 * t, 2000000.0 - 7 * t] for t in (-5, -1, 0, 2, 7, 11)],
+            [[7.0, -2.0]] * 5]
+    wi = [1, 2, 3, 1, 5, 2]
+    vi = [4, 1, 1, 2, 1, 3]
+    for uv in sets:
+        n = len(uv)
+        xy = [[u + 1.0 + 0.25 * (i % 3), v - 2.0 - 0.5 * (i % 2)] for i, (u, v) in enumerate(uv)]
+        for wxy, wuv in ((None, None), (wi[:n], None), ([float(v) for v in wi[:n]], [float(v) for v in vi[:n]])):
+            rels = [({'kind': 'perm', 'perm': list(range(n))[::-1]}, None),
+                    ({'kind': 'sim', 'A': Q90, 'B': Q90, 'label': 'both'}, None),
+                    ({'kind': 'sim', 'A': Qh, 'B': Qh, 'label': 'both'}, None),
+                    ({'kind': 'sim', 'A': Q30, 'B': Q30, 'label': 'both'}, None),
+                    ({'kind': 'sim', 'A': IDENT, 'B': mk_sim(1.0, 0.0, False, [-512.0, 64.0]),
+                      'label': 'translate-uv'}, None),
+                    ({'kind': 'center', 'c': [16.0, -4.0]}, None)]
+            rels.append(({'kind': 'wscale', 'c': 4.0}, None) if wxy is not None else
+                        ({'kind': 'uniform', 'cx': 2.0, 'cu': None}, None))
+            out.append(({'data': {'xy': xy, 'uv': uv, 'wxy': wxy, 'wuv': wuv, 'center': None},
+                         'par': {'geom': 'general', 'nclip': 3, 'sigma': (3.0, 'rmse'), 'clip_accum': False},
+                         'family': 'corpus-degenerate', 'S': 16.0, 'must': 'singular'}, rels))
+    # the only points off the line carry no weight
+    uv = line + [[0.0, 9.0], [3.0, -8.0]]
+    xy = [[u + 1.0, v - 2.0] for u, v in uv]
+    out.append(({'data': {'xy': xy, 'uv': uv, 'wxy': wi + [0, 0], 'wuv': None, 'center': None},
+                 'par': {'geom': 'general', 'nclip': 3, 'sigma': (3.0, 'rmse'), 'clip_accum': True},
+                 'family': 'corpus-degenerate', 'S': 16.0, 'must': 'singular'},
+                [({'kind': 'perm', 'perm': [7, 6, 5, 4, 3, 2, 1, 0]}, None),
+                 ({'kind': 'sim', 'A': Q90, 'B': Q90, 'label': 'both'}, None),
+                 ({'kind': 'wscale', 'c': 0.5}, None)]))
     return out
 
 
